@@ -92,7 +92,12 @@ func TestC07(t *testing.T) {
 		nd := rapid.IntRange(1, 2).Draw(rt, "ndefs")
 		for i := 0; i < nd; i++ {
 			var dn *model.Node
-			switch rapid.IntRange(0, 2).Draw(rt, "defkind") {
+			switch rapid.IntRange(0, 3).Draw(rt, "defkind") {
+			case 3:
+				// a row type: an array definition that states no limits of its own (rows of any
+				// length are valid whatever the limits of the array that holds them)
+				dn = &model.Node{Kind: model.KArray, Items: &model.Node{Kind: rapid.SampledFrom([]model.Kind{model.KString, model.KInteger, model.KNumber}).Draw(rt, "rowprim")}}
+				c.Count("shape.array_definition_without_limits")
 			case 0:
 				dn = &model.Node{Kind: model.KString, MinLength: model.IntP(2)}
 			case 1:
